@@ -3,7 +3,7 @@
 # Confirms a seeded change independently of the sub-agent:
 #   fresh scratch worktree of /repo HEAD: patch applies, builds, demo FAILS with it, the package's
 #   existing tests give the same result as without it, demo PASSES without it.
-# Then applies the patch to /repo, runs the property's quick check, and undoes it.
+# Then applies the patch to a second scratch worktree and runs the property's quick check on it.
 # Stores everything under /verif/seeded/<seed-name>/.
 set -u
 NAME=$1; PROP=$2; OUT=$3; PKG=$4; RUN=${5:-VerifSeed}; NEEDS=${6:-see agent_notes.md}
@@ -33,16 +33,19 @@ if go test -count=1 -run "$RUN" ./"$PKG"/ >>"$LOG" 2>&1; then say "demo-without-
 cd /verif
 git -C /repo worktree remove --force "$WT"
 rm -f /tmp/confirm_base_$NAME.txt /tmp/confirm_patch_$NAME.txt
-# our checks against the change
-if [ -n "$(git -C /repo status --porcelain)" ]; then say "RESULT /repo not clean, skipping detection run"; exit 1; fi
-git -C /repo apply "$DST"/patch.diff
+# our checks against the change: in a second scratch worktree, so that nothing else that reads /repo
+# at the same time sees the seeded change
+WT2=/tmp/confirm2_$NAME
+git -C /repo worktree remove --force "$WT2" 2>/dev/null
+git -C /repo worktree add -q --detach "$WT2" HEAD || exit 2
+git -C "$WT2" apply "$DST"/patch.diff
 mkdir -p /tmp/seedverif_$NAME
 cp /verif/known_findings.txt /tmp/seedverif_$NAME/ 2>/dev/null
 for p in $(echo "$PROP" | tr ',' ' '); do
-  bin/rlint -repo /repo -prop "$p" -tier quick -verif /tmp/seedverif_$NAME > "$DST"/detect_$p.log 2>&1; rc=$?
+  bin/rlint -repo "$WT2" -prop "$p" -tier quick -verif /tmp/seedverif_$NAME > "$DST"/detect_$p.log 2>&1; rc=$?
   if [ $rc -eq 0 ]; then say "check $p: NOT detected (exit 0)"; elif [ $rc -eq 1 ]; then say "check $p: DETECTED"; grep -E "VIOLATED|UNDECIDED" "$DST"/detect_$p.log | head -5 | cut -c1-300 | tee -a "$LOG"; else say "check $p: not run (exit $rc)"; rm -f "$DST"/detect_$p.log; fi
 done
-git -C /repo checkout -- .
+git -C /repo worktree remove --force "$WT2"
 rm -rf /tmp/seedverif_$NAME
 python3 - "$NAME" "$PROP" "$PKG" "$RUN" "$NEEDS" "$DST" <<'PYEOF'
 import json, sys, re, os
@@ -64,7 +67,7 @@ meta = {
   },
   "what_was_run": [
     f"scratch worktree of /repo HEAD; git apply patch.diff; go build ./...; go test -count=1 ./{pkg}/ (compared with the unpatched run); go test -run {run} ./{pkg}/ with and without the patch",
-    "git -C /repo apply patch.diff; bin/rlint -repo /repo -prop <id> -tier quick; git -C /repo checkout -- .",
+    "scratch worktree of /repo HEAD + git apply patch.diff; bin/rlint -repo <worktree> -prop <id> -tier quick",
   ],
   "detection": det,
 }
